@@ -1,6 +1,8 @@
 mod ast;
 mod driver;
 mod enumerate;
+mod fuzz_decode;
+mod fuzzrun;
 mod gen;
 mod known;
 mod oracle_bt;
